@@ -9,9 +9,14 @@ PROPS["C16"] = dict(
           "result; distinct = distinct (op, leading bits of the first three arguments)"),
     tolerances={"sincosd/atan2d": "2 ulp vs 80-bit long double reference", "angnorm/angdiff/sum": "exact (dyadic arithmetic in Lean)",
                 "tauf∘taupf": "64 eps × 1/(1-e²)", "accumulator": "2^-100 relative to Σ|terms|"},
-    level_text=("Theorems: the quadrant switch of sincosd is correct over the reals for every quotient and remainder (same term as the "
-                "executable F64 model). Exact relations decided in Lean's dyadic arithmetic for every sampled input: AngNormalize "
-                "(congruent mod 360, range, sign rule), AngDiff (d+e == y-x mod 360 exactly, d rounded), the TwoSum contract, the accumulator "
+    level_text=("Theorems about the exact binary64 model that the driver executes against the implementation (for every finite double, not sampled): "
+                "remainder (the reduction inside AngNormalize, AngDiff and sincosd's remquo) is exact — result = x − n·y with n the nearest integer, |result| ≤ |y|/2, "
+                "zero keeps the sign of x; AngNormalize returns a finite value congruent to x modulo 360 exactly, in [−180, 180], carrying the sign of x at 0 and ±180, "
+                "and NaN for non-finite input (constants 360/180/90 re-extracted from Math.hpp each run); LatFix is the identity exactly on [−90, 90]; AngRound is "
+                "the identity, bit for bit, for |x| ≥ 1/16; AngDiff's d + e is congruent to y − x modulo 360 exactly, given the TwoSum contract of its two inner "
+                "sums (partial: the contract is evaluated exactly in dyadic arithmetic per sampled pair, not proved for all pairs); the quadrant switch of sincosd "
+                "is correct over the reals for every quotient and remainder (same term as the executable model). Exact relations decided in Lean's dyadic "
+                "arithmetic for every sampled input: AngNormalize, AngDiff (d+e == y−x mod 360, d rounded), the TwoSum contract, the accumulator "
                 "against the exact dyadic sum. sincosd/atan2d wrappers are predicted bit-for-bit from the implementation's own kernel "
                 "values; accuracy (2 ulp), special values, parity, periodicity and tauf∘taupf are property-level oracles on the implementation. "
                 "Partial: ulp accuracy of libm-based functions and TwoSum for all pairs are not theorems."),
